@@ -193,6 +193,46 @@ class Session:
                 rec["plain"][(op["where"], op["name"])] = op["v"]
             except Exception as e:
                 self.events.append("rebind rejected %s" % type(e).__name__)
+        elif k == "refused_del":
+            # a deletion that modelx refuses (the reference overrides a base's 'relative' reference that the space could not
+            # re-bind): the reference is still there afterwards - and so is the spec of the value it holds
+            if any(n in rec["spaces"] for n in ("R0", "RA", "RS")) or any(n in m.refs for n in ("R0", "RA", "RS")):
+                return
+            if self.dir is None:
+                self.dir = self.ctx.tmpdir("io")
+            try:
+                r0 = m.new_space("R0")
+                ra = m.new_space("RA")
+                rs = m.new_space("RS", bases=ra)
+            except Exception:
+                return
+            rec["spaces"].update({"R0": [], "RA": [], "RS": ["RA"]})
+            val = self.frame()
+            vid = self.nv
+            path = self.resolve("files/r%d.csv" % vid)
+            try:
+                rs.new_pandas("d1", path, val, file_type="csv")
+            except Exception as e:
+                self.events.append("refused_del: new_pandas rejected %s" % type(e).__name__)
+                return
+            rec["values"][vid] = val
+            rec["bind"][("RS", "d1")] = vid
+            rec["paths"][vid] = path
+            rec["kind"][vid] = "new_pandas"
+            rec["text"][vid] = None
+            try:
+                ra.relref(d1=r0)
+                rec["plain"][("RA", "d1")] = r0
+            except Exception as e:
+                self.events.append("refused_del: relref rejected %s" % type(e).__name__)
+                return
+            try:
+                del rs.d1
+                rec["bind"].pop(("RS", "d1"), None)
+                self.events.append("refused_del: deletion accepted")
+            except Exception as e:
+                self.events.append("refused_del: deletion refused %s" % type(e).__name__)
+                self.ctx.count("refused_deletions_of_a_specd_reference", 1, "reach")
         elif k == "rebind_obj":
             # the name is bound to a modelx object (the model itself, absolute mode) instead: the value it held is released
             cont = self.container(rec, op["where"])
@@ -491,6 +531,8 @@ class Session:
             return {"op": "new_pandas", "mi": mi, "where": where, "name": name, "path": path, "same_value": rng.random() < 0.12}
         if r < 0.5:
             return {"op": "assign", "mi": mi, "where": where, "name": name, "src_where": rng.choice(pool), "src": rng.choice(NAMES)}
+        if r < 0.52 and rng.random() < 0.25:
+            return {"op": "refused_del", "mi": mi}
         if r < 0.6:
             if rng.random() < 0.3:
                 return {"op": "rebind_obj", "mi": mi, "where": where, "name": name}
